@@ -126,11 +126,20 @@ Struct(b) ==
 Muts(b) == Valid(b) \cup Trunc(b) \cup ByteMut(b) \cup BodyLenMut(b) \cup FieldsLenMut(b) \cup Swap(b) \cup BadNames(b) \cup Struct(b)
 Cases == UNION {Muts(b) : b \in Bases}
 
+(* padtrunc: a message without a body whose header ends at every residue modulo 8 (member names of 1..8 bytes), cut at every
+   position of the padding behind the header fields (and just before / behind it).  With an empty body the declared lengths
+   are all satisfied by an input that ends inside that padding; it is still not a complete message.  In every tier. *)
+MemberIx(b) == CHOOSE j \in 1..Len(b.hdr.fields) : b.hdr.fields[j].c = F_MEMBER
+PadBase(k, le) == LET b0 == Base(2, le) IN SetField(b0, MemberIx(b0), [t |-> Ty("s"), v |-> S([x \in 1..k |-> 96 + x])])
+PadTrunc(b) == LET B == Raw(b) IN {Case("padtrunc", b, SubSeq(B, 1, n), 0) : n \in (Len(B) - 9)..Len(B)}
+PadBases == {PadBase(k, le) : k \in 1..8, le \in BOOLEAN}
+
 (* root -> base -> case, so that the workers mutate the bases in parallel *)
 VARIABLE c
 IsCase == "cls" \in DOMAIN c
 Init == c = [root |-> TRUE]
-Next == \/ ("root" \in DOMAIN c /\ c' \in {[b |-> b] : b \in Bases})
+Next == \/ ("root" \in DOMAIN c /\ c' \in {[b |-> b] : b \in Bases} \cup {[pb |-> b] : b \in PadBases})
         \/ ("b" \in DOMAIN c /\ c' \in Muts(c.b))
+        \/ ("pb" \in DOMAIN c /\ c' \in PadTrunc(c.pb))
 Emit == IsCase => PrintT(<<"CASE", ToJson(c)>>)
 =============================================================================
